@@ -1,6 +1,9 @@
 package xp10
 
-import "fmt"
+import (
+	"fmt"
+	"strings"
+)
 
 // Verdict of the three-valued acceptance oracle.
 type Verdict int
@@ -56,6 +59,12 @@ func ClassifyCore(src string, knownPrefix func(string) bool) (Verdict, string) {
 			return true
 		}
 		return len(p.FPreds) == 0 && p.Filter.Op == "func" && (p.Filter.Val == "current" || p.Filter.Val == "deref")
+	}
+	if strings.Contains(src, "\x00") {
+		// outside a literal NUL is no token (rejected above); inside a literal it is not an XML
+		// character (XML 1.0 Char excludes #x0) and XPath expressions are made of XML characters:
+		// whether a literal may hold it is not settled by the documents the property names
+		unspec("NUL inside a literal")
 	}
 	n.Walk(func(x *Node) {
 		switch x.Op {
